@@ -19,6 +19,15 @@ package parser
 //@ func (*bytes.Buffer).WriteRune
 //@   trusted assumed: appends to the buffer; the scanner's literal buffer is private to it and no obligation reads its contents
 //@   modifies nothing
+//@ func (*bytes.Buffer).WriteString
+//@   trusted assumed: appends to the buffer (contents not modelled; readers of a buffer are not functions of the pointer)
+//@   modifies nothing
+//@ func (*bytes.Buffer).Write
+//@   trusted assumed: appends to the buffer (contents not modelled)
+//@   modifies nothing
+//@ func (*bytes.Buffer).WriteByte
+//@   trusted assumed: appends to the buffer (contents not modelled)
+//@   modifies nothing
 //@ func (*bytes.Buffer).Reset
 //@   trusted assumed: empties the buffer (contents not modelled)
 //@   modifies nothing
